@@ -188,6 +188,15 @@ func (p *Prog) roots() []Root {
 		rn := "go " + p.Name(s.Target)
 		if s.Target.Parent() != nil || !knownFuncs[p.Name(s.Target)] {
 			rn = "go@" + p.ownerName(s.In)
+			// a closure that only wraps one known function (defers around a
+			// call of it) is that function's goroutine
+			if w := p.wrappedKnown(s.Target); w != nil {
+				rn = "go " + p.Name(w)
+				if p.rootWrapper == nil {
+					p.rootWrapper = map[string]*ssa.Function{}
+				}
+				p.rootWrapper[rn] = s.Target
+			}
 		}
 		out = append(out, Root{Name: rn, Funcs: p.reach(s.Target)})
 	}
@@ -351,7 +360,11 @@ func (p *Prog) lockHeld(fn *ssa.Function, mutexField string) map[ssa.Instruction
 					default:
 						if depth < maxHelperDepth {
 							if hf := p.helperCallee(i); hf != nil && hf != g {
+								// (the virtual call stack lets a function-typed
+								// parameter of the helper resolve to this site's argument)
+								p.ctx = append(p.ctx, i)
 								st = flow(hf, st, depth+1)
+								p.ctx = p.ctx[:len(p.ctx)-1]
 								if st == -1 {
 									st = 0
 								}
@@ -382,7 +395,10 @@ func (p *Prog) lockHeld(fn *ssa.Function, mutexField string) map[ssa.Instruction
 		}
 		return exit
 	}
+	savedCtx := p.ctx
+	p.ctx = nil
 	flow(fn, 0, 0)
+	p.ctx = savedCtx
 	return held
 }
 
@@ -441,4 +457,72 @@ func (p *Prog) knownOwners(fn *ssa.Function, within map[*ssa.Function]bool) []*s
 		return []*ssa.Function{fn}
 	}
 	return out
+}
+
+
+// wrappedKnown: g is a closure whose body is, apart from deferred calls and
+// builtins, exactly one plain call of a known local function.
+func (p *Prog) wrappedKnown(g *ssa.Function) *ssa.Function {
+	if g == nil || g.Parent() == nil {
+		return nil
+	}
+	var target *ssa.Function
+	n := 0
+	for _, b := range g.Blocks {
+		for _, in := range b.Instrs {
+			switch x := in.(type) {
+			case *ssa.Call:
+				if _, isB := x.Call.Value.(*ssa.Builtin); isB {
+					continue
+				}
+				n++
+				if t := p.staticLocalCallee(x); t != nil && t.Parent() == nil && knownFuncs[p.Name(t)] {
+					target = t
+				}
+			case *ssa.Go, *ssa.Select, *ssa.Send:
+				return nil
+			}
+		}
+	}
+	if n == 1 {
+		return target
+	}
+	return nil
+}
+
+
+// enteredOnlyThroughHelper: g is a closure whose only use is as the argument
+// of helper calls in its parent (the helper calls it through a function-typed
+// parameter): its body runs in the context of those calls. Returns the parent.
+func (p *Prog) enteredOnlyThroughHelper(g *ssa.Function) *ssa.Function {
+	par := g.Parent()
+	if par == nil || len(p.valueEntries(g)) == 0 {
+		return nil
+	}
+	ok := true
+	found := false
+	for _, b := range par.Blocks {
+		for _, in := range b.Instrs {
+			mc, isMC := in.(*ssa.MakeClosure)
+			if !isMC || mc.Fn != ssa.Value(g) {
+				continue
+			}
+			found = true
+			for _, r := range *mc.Referrers() {
+				switch x := r.(type) {
+				case *ssa.DebugRef:
+				case *ssa.Call:
+					if p.helperCallee(x) == nil || x.Call.Value == ssa.Value(mc) {
+						ok = false
+					}
+				default:
+					ok = false
+				}
+			}
+		}
+	}
+	if !ok || !found {
+		return nil
+	}
+	return par
 }
